@@ -1994,7 +1994,7 @@ class Parser:
     def _advance(self, times: i64 = 1) -> None:
         if _VERIF:
             _verif.step("p")
-            _verif.emit("advance", index=self._index, times=times, size=self._tokens_size)
+            _verif.emit("advance", pid=id(self), index=self._index, times=times, size=self._tokens_size)
         index = self._index + times
         self._index = index
         tokens = self._tokens
@@ -2105,7 +2105,7 @@ class Parser:
         )
 
         if _VERIF:
-            _verif.emit("raise_error", level=self.error_level.name, message=message)
+            _verif.emit("raise_error", pid=id(self), level=self.error_level.name, message=message)
         if self.error_level == ErrorLevel.IMMEDIATE:
             raise error
 
@@ -2127,7 +2127,7 @@ class Parser:
         this: T | None = None
 
         if _VERIF:
-            _verif.emit("try_enter", index=index, level=error_level.name)
+            _verif.emit("try_enter", pid=id(self), index=index, level=error_level.name)
         self.error_level = ErrorLevel.IMMEDIATE
         try:
             this = parse_method()
@@ -2140,6 +2140,7 @@ class Parser:
             if _VERIF:
                 _verif.emit(
                     "try_exit",
+                    pid=id(self),
                     index=self._index,
                     level=self.error_level.name,
                     ok=bool(this),
@@ -2203,7 +2204,7 @@ class Parser:
     def check_errors(self) -> None:
         """Logs or raises any found errors, depending on the chosen error level setting."""
         if _VERIF:
-            _verif.emit("check_errors", level=self.error_level.name, errors=len(self.errors))
+            _verif.emit("check_errors", pid=id(self), level=self.error_level.name, errors=len(self.errors))
         if self.error_level == ErrorLevel.WARN:
             for error in self.errors:
                 logger.error(str(error))
